@@ -54,6 +54,12 @@ def drivers(shapes):
                                             ("pk", "out", 1, 32), ("st", "out", 4, 1)],
                      "        let sk = PrivateKey::from_seed(&seed[..]);\n        *sig = sk.sign_raw(&msg[..]); *pk = sk.public_key.encoded;\n"
                      "        st[0] = sk.public_key.verify_raw(&sig[..], &msg[..]) as u32;", HOST))
+    ds.append(Driver("drv_ed25519_signrt2", [("seed", "in", 1, 32), ("msg", "in", 1, 16), ("ctx", "in", 1, 8), ("cl", "val", 4, 1), ("variant", "val", 4, 1),
+                                             ("sig", "out", 1, 64), ("pk", "out", 1, 32), ("st", "out", 4, 1)],
+                     "        let sk = PrivateKey::from_seed(&seed[..]); let c = &ctx[..cl as usize];\n"
+                     "        *sig = match variant { 0 => sk.sign_raw(&msg[..]), 1 => sk.sign_ctx(c, &msg[..]), _ => sk.sign_ph(c, &msg[..]) }; *pk = sk.public_key.encoded;\n"
+                     "        st[0] = (match variant { 0 => sk.public_key.verify_raw(&sig[..], &msg[..]), 1 => sk.public_key.verify_ctx(&sig[..], c, &msg[..]), "
+                     "_ => sk.public_key.verify_ph(&sig[..], c, &msg[..]) }) as u32;", HOST))
     return ds
 
 
@@ -232,19 +238,24 @@ def _confirm(ob, built, shape, problems, secs, nq):
     (pure Python) on seed-derived keys"""
     from . import ed25519_ref as REF
     r = rng("c07s", str(shape))
+    variant, cl = "raw", 0
+    if shape is not None:
+        variant, cl = shape[0], min(shape[1], 8)
+    vnum = {"raw": 0, "ctx": 1, "ph": 2}[variant]
     for it in range(24):
         seed = [r.getrandbits(8) for _ in range(32)]
         msg = [r.getrandbits(8) for _ in range(16)]
-        nat = built.native("drv_ed25519_signrt", {"seed": seed, "msg": msg})
-        want_pk, want_sig = REF.sign(bytes(seed), bytes(msg))
+        ctx = [r.getrandbits(8) for _ in range(8)]
+        nat = built.native("drv_ed25519_signrt2", {"seed": seed, "msg": msg, "ctx": ctx, "cl": cl, "variant": vnum})
+        want_pk, want_sig = REF.sign(bytes(seed), bytes(msg), variant, bytes(ctx[:cl]))
         if bytes(nat["pk"]) != want_pk or bytes(nat["sig"]) != want_sig or nat["st"][0] != 1:
             return ob.fail({"key": ob.name.split(":", 1)[1].split("[")[0], "problems": problems,
-                            "inputs": {"seed": bytes(seed).hex(), "msg": bytes(msg).hex()},
+                            "inputs": {"seed": bytes(seed).hex(), "msg": bytes(msg).hex(), "variant": variant, "ctx": bytes(ctx[:cl]).hex()},
                             "native": {"pk": bytes(nat["pk"]).hex(), "sig": bytes(nat["sig"]).hex(), "verify": nat["st"][0]},
                             "expected": {"pk": want_pk.hex(), "sig": want_sig.hex()},
                             "found_by": "structural mismatch in the stubbed model, confirmed natively against an RFC 8032 reference signer"},
                            "z3-bv+replay", secs, nq)
-    return ob.unknown("structural mismatch (%s) not confirmed natively (raw variant, 16-byte messages, 24 seeds)" % "; ".join(problems)[:300])
+    return ob.unknown("structural mismatch (%s) not confirmed natively (this variant, context of at most 8 bytes, 16-byte messages, 24 seeds)" % "; ".join(problems)[:300])
 
 
 QUICK = [("raw", 0, 0), ("raw", 0, 16), ("raw", 0, 64), ("raw", 0, 65), ("ctx", 3, 8), ("ctx", 0, 8), ("ph", 2, 64), ("ctx", 255, 1), ("ph", 255, 64)]
